@@ -6,11 +6,14 @@
 //!
 //! `VERIF_SEED` (default 1) is the one integer every run derives from.
 
+mod c06;
 mod c18;
 mod c18_interp;
 mod engine;
+mod oracle;
 mod rng;
 mod sess;
+mod workload;
 
 use engine::{BatchCfg, Tier};
 
@@ -27,6 +30,13 @@ fn usage() -> ! {
 
 fn main() {
     sess::install_panic_hook();
+    // Sessions are cloned all the time; keep freed memory in the process instead of returning
+    // it to the kernel after every clone (pure performance knob, no influence on any run).
+    unsafe {
+        libc::mallopt(libc::M_MMAP_THRESHOLD, 1 << 30);
+        libc::mallopt(libc::M_TRIM_THRESHOLD, 1 << 30);
+        libc::mallopt(libc::M_TOP_PAD, 64 << 20);
+    }
     // Determinism hygiene: nothing in the workloads depends on the local time zone, but pin it anyway.
     // SAFETY: single-threaded at this point.
     unsafe {
@@ -97,6 +107,7 @@ fn cmd_run(args: &[String]) -> i32 {
             .unwrap_or(100),
     };
     match id.as_str() {
+        "C06" => engine::run_batch(&c06::C06, &cfg),
         "C18" => engine::run_batch(&c18::C18, &cfg),
         _ => {
             eprintln!("unknown property {id}");
@@ -123,6 +134,7 @@ fn cmd_replay(args: &[String]) -> i32 {
         }
     };
     match trace["property"].as_str().unwrap_or("") {
+        "C06" => engine::replay_file(&c06::C06, path, &trace, quiet),
         "C18" => engine::replay_file(&c18::C18, path, &trace, quiet),
         other => {
             println!("HARNESS-ERROR unknown property {other:?} in {path}");
